@@ -44,6 +44,12 @@ CLAIMED = {
     note="Premise `non-conflicting statements commute` is C08. The z3-to-Lean link (T is hord, path parametricity) is by reading. Thin wrapper methods (assign, yield_state, ...) are only in the bounded stand-in (exhaustive <=2-3 builder calls + random programs executed in all/sampled linear extensions).",
     technique="contract-based deductive verification: ast->z3 VC generation with set-iteration in arbitrary order and alias tracking; spec-level invariant lemma; Lean meta-lemmas",
     ref="6/C02"),
+
+ "C20": dict(cat="proof",
+    text="wrap_line_base is symbolically executed over an abstract token list of any length (lines tracked as length + token range, every `+=` carrying the obligation that a whole next token is appended): each token is placed exactly once and in order, and each emitted line with >= 2 tokens fits the width after padding; pad_python / pad_fortran are proved with z3 strings to satisfy the pad contract the wrapper assumes. Relative to the lexer contract A-LEX.",
+    note="A-LEX (a quoted string lies within one token) is false for shlex in known cases: findings D19, D27, D28 are reported by the bounded stand-in (exhaustive small token sequences x widths x levels on both real wrap_line functions, ast.parse comparison) and listed in known_findings.json by fingerprint.",
+    technique="contract-based deductive verification: ast->z3 VC generation with linear integer length reasoning and ghost token ranges; z3 strings for the pad functions",
+    ref="6/C20"),
 }
 
 NOT_APPLICABLE = {
